@@ -61,23 +61,29 @@ def rule_tables(facts, rep):
     rep.check(m == [tp.VERSIONS["cansi"]], "tables", "Cargo.lock", "cansi-version", f"{m}", "Cargo.lock")
     b = facts.body("anstyle_roff", R + "styled_str::cansi_to_anstyle_color")
     rep.fn(b["path"])
-    m_ = ac.single_expr(b["hir"])
+    # truth table by abstract evaluation over None and Some(each cansi colour): a 17-arm match, or `match color? { .. }` wrapped
+    # afterwards, are the same table
+    import abseval
     got = {}
     none_ok = False
-    for a in m_["arms"]:
-        p = a["pat"]
-        v = hir.simp(a["body"])
-        if p.get("k") == "ppath" and p["path"].endswith("Option::None"):
-            none_ok = hir.is_def(v, "Option::None")
-            continue
-        inner = p["pats"][0] if p.get("k") == "pts" else {}
-        name = hir.last_seg(hir.pat_path(inner)) if hir.pat_path(inner) and hir.pat_path(inner).startswith("cansi::") else None
-        val = None
-        if v.get("ctor", "").endswith("Option::Some"):
-            c = hir.simp(v["args"][0])
-            if c.get("ctor") == "anstyle::color::Color::Ansi":
-                val = hir.last_seg(hir.def_path(c["args"][0]))
-        got[name] = val
+    for name in [None] + list(tp.CANSI_COLOR):
+        ev = abseval.Evaluator(facts, "anstyle_roff", {})
+        env = abseval.Env()
+        env[b["params"][0]["name"]] = ("none",) if name is None else ("some", ("enum", "cansi::Color::" + name))
+        try:
+            try:
+                r = ev.ev(b["hir"], env)
+            except abseval.Return as rt:
+                r = rt.v
+        except Unrecognised as ex:
+            raise Unrecognised(f"cansi_to_anstyle_color: {ex}")
+        if name is None:
+            none_ok = r == ("none",)
+        else:
+            val = None
+            if r[0] == "some" and r[1][0] == "ctor" and r[1][1] == "anstyle::color::Color::Ansi" and r[1][2][0] == "enum":
+                val = r[1][2][1].split("::")[-1]
+            got[name] = val
         rep.count()
     rep.check(got == {n: n for n in tp.CANSI_COLOR} and none_ok, "tables", b["path"], "16-rows-same-names",
               f"wrong rows: { {k: v for k, v in got.items() if k != v} }", loc(b))
@@ -125,15 +131,27 @@ def rule_tables(facts, rep):
     # is_bright, ansi_color_to_roff
     ib = facts.body("anstyle_roff", R + "is_bright")
     rep.fn(ib["path"])
-    ms = [n for n in hir.walk(ib["hir"]) if n.get("k") == "match" and n.get("src") == "Normal"]
+    # truth table of is_bright over the colour kinds by abstract evaluation: true exactly for the eight bright 4-bit colours
+    import abseval
     got = set()
-    if len(ms) == 1:
-        for a in ms[0]["arms"]:
-            if hir.lit_val(a["body"]) is True:
-                got |= {hir.last_seg(hir.pat_path(x)) for x in hir.pat_alternatives(a["pat"])}
-    e = ac.single_expr(ib["hir"])
-    outer = e.get("k") == "if" and hir.simp(e["c"]).get("k") == "letexpr" and hir.pat_path(hir.simp(e["c"])["pat"]) == "anstyle::color::Color::Ansi" and hir.lit_val(ac.single_expr(e["e"])) is False
-    rep.check(outer and got == {n for n in sgr.ANSI16 if n.startswith("Bright")}, "tables", ib["path"], "eight-bright-variants", f"{sorted(got)}", loc(ib))
+    other_true = []
+    for kind, args in [("Ansi", ("enum", "anstyle::color::AnsiColor::" + n)) for n in sgr.ANSI16] + [("Ansi256", ("sym", "i")), ("Rgb", ("sym", "rgb"))]:
+        ev = abseval.Evaluator(facts, "anstyle_roff", {})
+        env = abseval.Env()
+        env[ib["params"][0]["name"]] = ("ctor", "anstyle::color::Color::" + kind, args)
+        try:
+            try:
+                r = ev.ev(ib["hir"], env)
+            except abseval.Return as rt:
+                r = rt.v
+        except Unrecognised as ex:
+            raise Unrecognised(f"is_bright: {ex}")
+        if r == ("bool", True):
+            if kind == "Ansi":
+                got.add(args[1].split("::")[-1])
+            else:
+                other_true.append(kind)
+    rep.check(not other_true and got == {n for n in sgr.ANSI16 if n.startswith("Bright")}, "tables", ib["path"], "eight-bright-variants", f"{sorted(got)} {other_true}", loc(ib))
     ar = facts.body("anstyle_roff", R + "ansi_color_to_roff")
     rep.fn(ar["path"])
     t = ac.variant_table(ac.single_expr(ar["hir"]), "anstyle::color::AnsiColor", hir.lit_val)
@@ -141,10 +159,25 @@ def rule_tables(facts, rep):
     rep.check(t == want, "tables", ar["path"], "hue-names", f"{ {k: v for k, v in t.items() if want.get(k) != v} }", loc(ar))
     rep.count(16)
     hb = facts.body("anstyle_roff", R + "has_bright_fg")
-    e = ac.single_expr(hb["hir"])
-    ok = hir.is_call(e, "Option::<T>::unwrap_or") and hir.lit_val(e["args"][1]) is False and bool(hir.calls_in(e, "anstyle::style::Style::get_fg_color")) and \
-        any(hir.def_path(n) == R + "is_bright" for n in hir.walk(e))
-    rep.check(ok, "tables", hb["path"], "bright-foreground-test", "", loc(hb))
+    ok = True
+    why = []
+    for fgv, want in ((("none",), False), (("some", ("ctor", "anstyle::color::Color::Ansi", ("enum", "anstyle::color::AnsiColor::BrightRed"))), True),
+                      (("some", ("ctor", "anstyle::color::Color::Ansi", ("enum", "anstyle::color::AnsiColor::Red"))), False),
+                      (("some", ("ctor", "anstyle::color::Color::Rgb", ("sym", "rgb"))), False)):
+        ev = abseval.Evaluator(facts, "anstyle_roff", {"anstyle::style::Style::get_fg_color": lambda a, fgv=fgv: fgv})
+        env = abseval.Env()
+        env[hb["params"][0]["name"]] = ("sym", "style")
+        try:
+            try:
+                r = ev.ev(hb["hir"], env)
+            except abseval.Return as rt:
+                r = rt.v
+        except Unrecognised as ex:
+            raise Unrecognised(f"has_bright_fg: {ex}")
+        if r != ("bool", want):
+            ok = False
+            why.append(f"fg={fgv}: {r}")
+    rep.check(ok, "tables", hb["path"], "bright-foreground-test", f"true exactly for a bright 4-bit foreground: {why[:2]}", loc(hb))
 
 
 def rule_font(facts, rep):
@@ -154,53 +187,50 @@ def rule_font(facts, rep):
     eff = st[0] if st and st[0].get("k") == "let" else {}
     ok = hir.is_call(hir.simp(eff.get("init", {})), "anstyle::style::Style::get_effects") and hir.place_str(hir.simp(eff["init"])["args"][0]) == "styled.style"
     rep.check(ok, "font", b["path"], "effects-of-the-segment", "", loc(b))
-    chain = []
-    e = hir.simp(st[1]) if len(st) == 2 else {}
-    while e.get("k") == "if":
-        chain.append((e["c"], e["t"]))
-        e = ac.single_expr(e["e"]) if "e" in e else {}
-        if e.get("k") != "if":
-            chain.append((None, e))
-            break
-
-    def font_of(body):
-        calls = [n for n in hir.walk(body) if hir.is_call(n, "roff::Roff::text")]
-        if len(calls) != 1 or not hir.is_local(calls[0]["args"][0], "doc"):
+    # the font decision, case by case (BOLD set? bright foreground? ITALIC set?): on the one structural path feasible for the
+    # case exactly one of roff::bold / italic / roman wraps the segment text, and it is bold if BOLD or bright-fg, else italic
+    # if ITALIC, else roman — three statement branches or one `let inline = if ..` are the same thing
+    import itertools
+    paths = hir.enumerate_paths(b["hir"])
+    R_ = hir.Resolver(b["hir"])
+    results = {}
+    for bold, bright, italic in itertools.product((False, True), repeat=3):
+        def val(e, depth=0, bold=bold, bright=bright, italic=italic):
+            e = hir.simp(e)
+            if hir.is_call(e, "anstyle::effect::Effects::contains"):
+                recv = R_.res(hir.peel(e["args"][0]))
+                which = hir.last_seg(hir.def_path(e["args"][1]) or "")
+                if hir.is_call(recv, "anstyle::style::Style::get_effects") and hir.place_str(recv["args"][0]) == "styled.style" and which in ("BOLD", "ITALIC"):
+                    return ("bool", bold if which == "BOLD" else italic)
+                return None
+            if hir.is_call(e, R + "has_bright_fg") and hir.place_str(e["args"][0]) == "styled.style":
+                return ("bool", bright)
+            if e.get("k") == "bin" and e.get("op") in ("BitOr", "BitAnd", "Or", "And") and e.get("ty") == "bool" and depth < 4:
+                l, r = val(e["l"], depth + 1), val(e["r"], depth + 1)
+                if l and r and l[0] == r[0] == "bool":
+                    return ("bool", (l[1] or r[1]) if e["op"] in ("BitOr", "Or") else (l[1] and r[1]))
+            if e.get("k") == "local" and depth < 4:
+                init = R_.res(e)
+                if init is not e:
+                    return val(init, depth + 1)
             return None
-        el = vec_elems(calls[0]["args"][1])
-        if len(el) != 1:
-            return None
-        c = hir.simp(el[0])
-        if c.get("k") == "call" and hir.callee(c) in ("roff::bold", "roff::italic", "roff::roman") and hir.place_str(c["args"][0]) == "styled.text":
-            return hir.callee(c).split("::")[-1]
-        return None
-
-    def cond_kind(c):
-        if c is None:
-            return "else"
-        parts = []
-        c = hir.simp(c)
-        stack = [c]
-        while stack:
-            x = hir.simp(stack.pop())
-            if x.get("k") == "bin" and x["op"] in ("BitOr", "Or") and "callee" not in x:
-                stack += [x["r"], x["l"]]
-            else:
-                parts.append(x)
-        out = set()
-        for p in parts:
-            if hir.is_call(p, "anstyle::effect::Effects::contains") and hir.is_local(p["args"][0], "effects"):
-                out.add(hir.last_seg(hir.def_path(p["args"][1])))
-            elif hir.is_call(p, R + "has_bright_fg") and hir.place_str(p["args"][0]) == "styled.style":
-                out.add("bright-fg")
-            else:
-                out.add("?")
-        return "|".join(sorted(out))
-
-    got = [(cond_kind(c), font_of(t)) for c, t in chain]
-    want = [("BOLD|bright-fg", "bold"), ("ITALIC", "italic"), ("else", "roman")]
-    for i, w in enumerate(want):
-        rep.check(i < len(got) and got[i] == w, "font", b["path"], f"{i}:{w[0]}→{w[1]}", f"decision list must be {want}; found {got}", loc(b))
+        feas = [p for p in paths if hir.path_feasible(p, val)]
+        fonts = []
+        for p in feas:
+            for t in p.trace:
+                if t[0] == "eval":
+                    for c in hir.walk(t[1]):
+                        if c.get("k") == "call" and hir.callee(c) in ("roff::bold", "roff::italic", "roff::roman") and hir.place_str(c["args"][0]) == "styled.text":
+                            fonts.append(hir.callee(c).split("::")[-1])
+        texts = [c for p in feas for t in p.trace if t[0] == "eval" for c in hir.walk(t[1]) if hir.is_call(c, "roff::Roff::text")]
+        results[(bold, bright, italic)] = (len(feas), fonts, len(texts))
+    want_rows = [("BOLD|bright-fg", "bold", lambda k: k[0] or k[1]), ("ITALIC", "italic", lambda k: not (k[0] or k[1]) and k[2]),
+                 ("else", "roman", lambda k: not (k[0] or k[1] or k[2]))]
+    for i, (label, font, pred) in enumerate(want_rows):
+        bad = {k: v for k, v in results.items() if pred(k) and v != (1, [font], 1)}
+        rep.check(not bad, "font", b["path"], f"{i}:{label}→{font}",
+                  f"(BOLD, bright-fg, ITALIC) cases where the text is not written exactly once in {font}: "
+                  f"{ {k: v for k, v in list(bad.items())[:2]} }", loc(b))
 
 
 def rule_colours(facts, rep):
